@@ -219,7 +219,7 @@ Definition spec_srow (k : skind) : drow :=
   | K_Times => D_Check CF_times true
   | K_Declaration => D_Check CF_declaration false
   | K_InterruptLabel | K_RelTimeLabel => D_Check CF_cond false
-  | K_CallSub => D_Unimpl
+  | K_CallSub => D_Reject
   | K_AbsTimeLabel | K_Label | K_ScopeEnd | K_NoInstruction => D_Skip
   end.
 Definition spec_irow (k : ikind) : irow :=
@@ -286,7 +286,7 @@ Definition checkfn_eqb (a b : checkfn) : bool :=
   end.
 Definition drow_eqb (a b : drow) : bool :=
   match a, b with
-  | D_Walk, D_Walk | D_Skip, D_Skip | D_Unimpl, D_Unimpl => true
+  | D_Walk, D_Walk | D_Skip, D_Skip | D_Unimpl, D_Unimpl | D_Reject, D_Reject => true
   | D_Check f w, D_Check f' w' => checkfn_eqb f f' && Bool.eqb w w'
   | _, _ => false
   end.
@@ -339,6 +339,7 @@ Definition srow_ok (k : skind) (r : drow) : bool :=
   match k with
   | K_Jump | K_AbsTimeLabel | K_Label | K_ScopeEnd | K_NoInstruction =>
       drow_eqb r D_Walk || drow_eqb r D_Skip
+  | K_CallSub => drow_eqb r D_Reject || drow_eqb r D_Unimpl     (* reserved syntax: never accepted *)
   | _ => drow_eqb r (spec_srow k)
   end.
 Definition irow_ok (k : ikind) (r : irow) : bool := irow_eqb r (spec_irow k).
